@@ -416,6 +416,10 @@ def run(prog, tier, seed):
         # name looks like
         return c02.rule_ltl3(prog, c02.discover(prog))
 
+    def _text(prog):
+        # renaming an atom to a name that has to be quoted in the text
+        return c01._text_atoms(prog, PROP)
+
     def _ctl13(prog):
         entry, labeller, memo_ok, why = c01.discover_labeller(prog)
         try:
@@ -426,7 +430,7 @@ def run(prog, tier, seed):
             r1, table = e.partial
         return c01.rule_ctl3(prog, labeller, table, tier)
     dep = adopt(T.results(T(c19.rule_res5, prog), T(_ltl0, prog),
-                          T(_ltl4, prog), T(_ltl3, prog),
+                          T(_ltl4, prog), T(_ltl3, prog), T(_text, prog),
                           T(_ctl13, prog), T(c12.rule_scc, prog),
                           T(c12.rule_scc6, prog)),
                 PROP, 'order / naming sensitive spot')
